@@ -6,6 +6,7 @@ package template
 
 import (
 	"fmt"
+	"html"
 	"regexp"
 	"strings"
 )
@@ -188,6 +189,37 @@ func sanitizationContextForAttrVal(element, attr, linkRel string) (sanitizationC
 		return sc, nil
 	}
 	return 0, fmt.Errorf("actions must not occur in the %q attribute value context of a %q element", attr, element)
+}
+
+// validateTextAfterAction validates static text that follows an action inside an attribute
+// value. The URL sanitizer vets the value of an action at the start of a URL on its own, so
+// static text after it must not be able to turn what the action contributed into a scheme:
+//
+//	<a href="{{ "javascript" }}:alert(1)">
+func validateTextAfterAction(c context, text string) error {
+	if !c.attr.dynamicStart {
+		return nil
+	}
+	elems, attrs := c.element.names, c.attr.names
+	if len(elems) == 0 {
+		elems = []string{c.element.name}
+	}
+	if len(attrs) == 0 {
+		attrs = []string{c.attr.name}
+	}
+	for _, elem := range elems {
+		for _, attr := range attrs {
+			sc, err := sanitizationContextForAttrVal(elem, attr, c.linkRel)
+			if err != nil || !sc.isURLorTrustedResourceURL() {
+				continue
+			}
+			decoded := html.UnescapeString(c.attr.value + text)
+			if i := strings.IndexAny(decoded, ":/?#"); i != -1 && decoded[i] == ':' {
+				return fmt.Errorf("%q after an action at the start of the %q URL attribute value of this %q element might complete a URL scheme", text, attr, elem)
+			}
+		}
+	}
+	return nil
 }
 
 // unknownLinkRel is the linkRel of a link element whose rel attribute value contains an action.
